@@ -206,7 +206,8 @@ def run_frozen_chunk(job):
 
     from octave_mcp.core import hydrator as HY
     try:
-        P.build_tree(root, [("out", "d", None), ("out/secret.md", "f", "SECRET-1\n"), ("sb", "d", None)])
+        P.build_tree(root, [("out", "d", None), ("out/secret.md", "f", "SECRET-1\n"), ("out/secret.oct.md", "f", "SECRET-2\n"),
+                            ("sb", "d", None), ("sb/deadbeefcafe0.oct.md", "f", "SECRET-5\n")])
         cache = root + "/sb/cache"
         dg = frozen_setup(cache, job["with_default"])
         os.chdir(root + "/sb")
